@@ -23,6 +23,7 @@ import (
 	"net/http/httptest"
 	"net/netip"
 	"net/url"
+	"slices"
 	"sort"
 	"strings"
 	"sync"
@@ -31,6 +32,7 @@ import (
 
 	"github.com/AdguardTeam/AdGuardDNS/internal/agdtest"
 	"github.com/AdguardTeam/AdGuardDNS/internal/backendpb"
+	"github.com/AdguardTeam/AdGuardDNS/internal/dnsserver/ratelimit"
 	"github.com/AdguardTeam/golibs/logutil/slogutil"
 	"github.com/AdguardTeam/golibs/netutil/urlutil"
 	"github.com/miekg/dns"
@@ -240,6 +242,59 @@ func vc09CResp(req *dns.Msg, size int) (resp *dns.Msg) {
 	return resp
 }
 
+// vc09Elem is one record of a scripted Consul answer.
+type vc09Elem struct {
+	Shape string
+	Addr  netip.Addr
+}
+
+func (e vc09Elem) hasAddr() bool { return e.Shape == "addr" || e.Shape == "addr-extra" }
+
+func (e vc09Elem) json() string {
+	switch e.Shape {
+	case "addr":
+		return fmt.Sprintf(`{"Address":%q}`, e.Addr)
+	case "addr-extra":
+		return fmt.Sprintf(`{"Node":"n1","ServiceID":7,"Meta":{"a":[1,2]},"Address":%q}`, e.Addr)
+	case "missing":
+		return `{"Node":"n2","ServiceID":8}`
+	case "empty-object":
+		return `{}`
+	case "null":
+		return `{"Address":null}`
+	case "empty-string":
+		return `{"Address":""}`
+	case "bad-cidr":
+		return fmt.Sprintf(`{"Address":"%s/24"}`, e.Addr)
+	case "bad-number":
+		return `{"Address":12345}`
+	default:
+		return `{"Address":"not-an-address"}`
+	}
+}
+
+func vc09ElemsJSON(es []vc09Elem) string {
+	parts := make([]string, len(es))
+	for i, e := range es {
+		parts[i] = e.json()
+	}
+
+	return "[" + strings.Join(parts, ",") + "]"
+}
+
+// vc09ElemsAddrs is the reference reading of an answer: every record on its
+// own; one without an address (key missing, null, empty string) contributes
+// nothing.
+func vc09ElemsAddrs(es []vc09Elem) (addrs []netip.Addr) {
+	for _, e := range es {
+		if e.hasAddr() && !slices.Contains(addrs, e.Addr) {
+			addrs = append(addrs, e.Addr)
+		}
+	}
+
+	return addrs
+}
+
 // vc09BackendSrv is a loopback stand-in for the backend's rate-limit service.
 type vc09BackendSrv struct {
 	backendpb.UnimplementedRateLimitServiceServer
@@ -282,7 +337,7 @@ func TestVerifC09ConfigPlumbing(t *testing.T) {
 		"v4-and-v6-intervals-differ", "v6-verdict-depends-on-v6-interval", "v4-verdict-depends-on-v4-interval",
 		"v6-verdict-depends-on-v6-count", "v4-verdict-depends-on-v4-count", "v6-verdict-depends-on-v6-key-len", "v4-verdict-depends-on-v4-key-len",
 		"verdict-depends-on-period-vs-duration", "verdict-depends-on-backoff-count-vs-ipv4-count", "verdict-depends-on-response-size-estimate",
-		"verdict-depends-on-allowlist", "verdict-depends-on-dynamic-allowlist", "static-allowlist-after-successful-refresh", "static-allowlist-after-two-refreshes", "verdict-depends-on-static-allowlist", "verdict-depends-on-last-refresh-replacing-the-previous", "dynamic-allowlist-kept-after-failed-refresh", "dynamic-allowlist-from-consul", "dynamic-allowlist-from-backend", "any-refusal-configured-and-any-query", "allowlisted-v4", "allowlisted-v6")
+		"verdict-depends-on-allowlist", "verdict-depends-on-dynamic-allowlist", "static-allowlist-after-successful-refresh", "static-allowlist-after-two-refreshes", "verdict-depends-on-static-allowlist", "verdict-depends-on-last-refresh-replacing-the-previous", "dynamic-allowlist-kept-after-failed-refresh", "missing-address-at-index-that-held-one-before", "list-shrunk", "refresh-failed-keeps-previous", "dynamic-allowlist-from-consul", "dynamic-allowlist-from-backend", "any-refusal-configured-and-any-query", "allowlisted-v4", "allowlisted-v6")
 	st.Finish(t)
 
 	// A loopback stand-in for the Consul service that feeds the dynamic part of
@@ -435,39 +490,173 @@ func TestVerifC09ConfigPlumbing(t *testing.T) {
 			t.Fatalf("initGRPCMetrics: %v", err)
 		}
 
-		firstEmpty := rapid.IntRange(0, 3).Draw(t, "firstRefreshEmpty") == 0
-		dynNow := []netip.Addr{dyn4, dyn6}
-		if firstEmpty {
-			dynNow = nil
+		var dynNow, stale []netip.Addr
+		var refreshes []string
+		nSuccess, failedKept := 0, false
+		refreshClasses := map[string]bool{}
+		var l ratelimit.Interface
+		var refresher interface {
+			Refresh(ctx context.Context) (err error)
+		}
+		build := func() {
+			if err := bld.initRateLimiter(ictx); err != nil {
+				t.Fatalf("initRateLimiter: %v\n%s", err, text)
+			}
+
+			l, refresher = bld.rateLimit, bld.debugRefrs[debugIDAllowlist]
+		}
+		retire := func(old, cur []netip.Addr) {
+			for _, o := range old {
+				if !slices.Contains(cur, o) && !slices.Contains(stale, o) {
+					stale = append(stale, o)
+				}
+			}
 		}
 
-		setSource(false, dynNow...)
-		if err := bld.initRateLimiter(ictx); err != nil {
-			t.Fatalf("initRateLimiter: %v\n%s", err, text)
-		}
+		if s.alType == rlAllowlistTypeConsul {
+			// One updater, 2..5 refreshes; every answer is derived from the
+			// last successful one index by index, so that records keep, change
+			// or lose their address in place, and the list shrinks and grows.
+			cands := []netip.Addr{dyn4, dyn6, dynB4, dynB6, vc09CFlip(dyn4, 31), vc09CFlip(dyn6, 127)}
+			drawAddr := func() vc09Elem {
+				return vc09Elem{Shape: rapid.SampledFrom([]string{"addr", "addr", "addr-extra"}).Draw(t, "shape"), Addr: rapid.SampledFrom(cands).Draw(t, "cand")}
+			}
+			drawNoAddr := func() vc09Elem {
+				return vc09Elem{Shape: rapid.SampledFrom([]string{"missing", "null", "empty-string", "empty-object"}).Draw(t, "noAddrShape")}
+			}
 
-		l := bld.rateLimit
-		refresher := bld.debugRefrs[debugIDAllowlist]
-		refreshes := []string{fmt.Sprintf("initial refresh -> %v", dynNow)}
-		dynMode := rapid.SampledFrom([]string{"one-refresh", "two-refreshes", "two-refreshes", "then-failed", "two-then-failed"}).Draw(t, "dynamic")
-		if strings.HasPrefix(dynMode, "two") {
-			// The second answer replaces the first: its entries are gone.
-			dynNow = []netip.Addr{dynB4, dynB6}
+			var last []vc09Elem
+			for i, n := 0, rapid.IntRange(1, 4).Draw(t, "firstLen"); i < n; i++ {
+				if rapid.IntRange(0, 5).Draw(t, "firstNoAddr") == 0 {
+					last = append(last, drawNoAddr())
+				} else {
+					last = append(last, drawAddr())
+				}
+			}
+
+			if rapid.IntRange(0, 5).Draw(t, "firstEmpty") == 0 {
+				last = nil
+			}
+
+			setConsul := func(status int, body string) {
+				consulMu.Lock()
+				consulStatus, consulBody = status, body
+				consulMu.Unlock()
+			}
+			setConsul(http.StatusOK, vc09ElemsJSON(last))
+			build()
+			dynNow, nSuccess = vc09ElemsAddrs(last), 1
+			refreshes = append(refreshes, fmt.Sprintf("initial refresh: %s -> dynamic allowlist %v", vc09ElemsJSON(last), dynNow))
+
+			for r, n := 1, rapid.IntRange(2, 5).Draw(t, "refreshes"); r < n; r++ {
+				next := make([]vc09Elem, 0, len(last)+2)
+				for _, e := range last {
+					switch rapid.IntRange(0, 5).Draw(t, "mutate") {
+					case 0, 1:
+						next = append(next, e)
+					case 2:
+						next = append(next, drawAddr())
+					default:
+						next = append(next, drawNoAddr())
+					}
+				}
+
+				switch rapid.IntRange(0, 3).Draw(t, "resize") {
+				case 0:
+					next = next[:max(0, len(next)-rapid.IntRange(1, 2).Draw(t, "shrinkBy"))]
+				case 1:
+					for j, g := 0, rapid.IntRange(1, 2).Draw(t, "growBy"); j < g; j++ {
+						next = append(next, drawAddr())
+					}
+				}
+
+				status, body, why := http.StatusOK, vc09ElemsJSON(next), ""
+				switch rapid.IntRange(0, 11).Draw(t, "fault") {
+				case 0:
+					status, why = http.StatusInternalServerError, "status 500"
+				case 1:
+					body, why = body[:len(body)/2]+"{not json", "truncated body"
+				case 2:
+					bad := vc09Elem{Shape: rapid.SampledFrom([]string{"bad-cidr", "bad-number", "bad-text"}).Draw(t, "badShape"), Addr: dyn4}
+					pos := rapid.IntRange(0, len(next)).Draw(t, "badPos")
+					withBad := append(append(append([]vc09Elem(nil), next[:pos]...), bad), next[pos:]...)
+					body, why = vc09ElemsJSON(withBad), "a record whose Address does not parse"
+				}
+
+				setConsul(status, body)
+				err := refresher.Refresh(ictx)
+				if why != "" {
+					if err == nil {
+						t.Fatalf("refresh #%d (%s: %s) reported no error", r, why, body)
+					}
+
+					refreshes = append(refreshes, fmt.Sprintf("refresh #%d fails (%s): %s -> dynamic allowlist stays %v", r, why, body, dynNow))
+					if len(dynNow) > 0 {
+						failedKept = true
+						refreshClasses["refresh-failed-keeps-previous"] = true
+					}
+
+					continue
+				}
+
+				if err != nil {
+					t.Fatalf("refresh #%d (%s): %v", r, body, err)
+				}
+
+				cur := vc09ElemsAddrs(next)
+				for i, e := range next {
+					if !e.hasAddr() && i < len(last) && last[i].hasAddr() && !slices.Contains(cur, last[i].Addr) {
+						refreshClasses["missing-address-at-index-that-held-one-before"] = true
+					}
+				}
+
+				if len(next) < len(last) {
+					refreshClasses["list-shrunk"] = true
+				}
+
+				if len(next) > len(last) {
+					refreshClasses["list-grown"] = true
+				}
+
+				retire(dynNow, cur)
+				dynNow, last = cur, next
+				nSuccess++
+				refreshes = append(refreshes, fmt.Sprintf("refresh #%d: %s -> dynamic allowlist %v", r, body, dynNow))
+			}
+		} else {
+			dynNow = []netip.Addr{dyn4, dyn6}
+			if rapid.IntRange(0, 3).Draw(t, "firstRefreshEmpty") == 0 {
+				dynNow = nil
+			}
+
 			setSource(false, dynNow...)
-			if err := refresher.Refresh(ictx); err != nil {
-				t.Fatalf("second refresh: %v", err)
+			build()
+			nSuccess = 1
+			refreshes = append(refreshes, fmt.Sprintf("initial refresh -> %v", dynNow))
+			dynMode := rapid.SampledFrom([]string{"one-refresh", "two-refreshes", "two-refreshes", "then-failed", "two-then-failed"}).Draw(t, "dynamic")
+			if strings.HasPrefix(dynMode, "two") {
+				// The second answer replaces the first: its entries are gone.
+				cur := []netip.Addr{dynB4, dynB6}
+				setSource(false, cur...)
+				if err := refresher.Refresh(ictx); err != nil {
+					t.Fatalf("second refresh: %v", err)
+				}
+
+				retire(dynNow, cur)
+				dynNow = cur
+				nSuccess++
+				refreshes = append(refreshes, fmt.Sprintf("second refresh -> %v", dynNow))
 			}
 
-			refreshes = append(refreshes, fmt.Sprintf("second refresh -> %v", dynNow))
-		}
+			if strings.HasSuffix(dynMode, "failed") {
+				setSource(true)
+				if err := refresher.Refresh(ictx); err == nil {
+					t.Fatalf("a failing allowlist refresh reported no error")
+				}
 
-		if strings.HasSuffix(dynMode, "failed") {
-			setSource(true)
-			if err := refresher.Refresh(ictx); err == nil {
-				t.Fatalf("a failing allowlist refresh reported no error")
+				failedKept = true
+				refreshes = append(refreshes, "failed refresh")
 			}
-
-			refreshes = append(refreshes, "failed refresh")
 		}
 
 		static := s.allowParsed
@@ -494,7 +683,7 @@ func TestVerifC09ConfigPlumbing(t *testing.T) {
 			{"verdict-depends-on-dynamic-allowlist", swap(func(m *vc09Settings) { m.allowParsed = static })},
 			{"verdict-depends-on-static-allowlist", swap(func(m *vc09Settings) { m.allowParsed = dynPrefixes(dynNow...) })},
 			{"verdict-depends-on-last-refresh-replacing-the-previous", swap(func(m *vc09Settings) {
-				m.allowParsed = append(append([]netip.Prefix(nil), s.allowParsed...), dynPrefixes(dyn4, dyn6)...)
+				m.allowParsed = append(append([]netip.Prefix(nil), s.allowParsed...), dynPrefixes(stale...)...)
 			})},
 			{"verdict-depends-on-refuseany", swap(func(m *vc09Settings) { m.Refuse = !s.Refuse })},
 		}
@@ -542,7 +731,7 @@ func TestVerifC09ConfigPlumbing(t *testing.T) {
 				// In the configuration file only; at least one successful refresh
 				// has replaced the dynamic list since.
 				classes["static-allowlist-after-successful-refresh"] = true
-				if strings.HasPrefix(dynMode, "two") {
+				if nSuccess >= 2 {
 					classes["static-allowlist-after-two-refreshes"] = true
 				}
 			}
@@ -659,8 +848,18 @@ func TestVerifC09ConfigPlumbing(t *testing.T) {
 			}
 		}
 
-		if strings.HasSuffix(dynMode, "failed") {
+		if failedKept {
 			classes["dynamic-allowlist-kept-after-failed-refresh"] = true
+		}
+
+		for k := range refreshClasses {
+			classes[k] = true
+		}
+
+		// Every address that was ever delivered, or could have been, is probed:
+		// it is exempt exactly if the last successful answer lists it.
+		for _, a := range append(append([]netip.Addr(nil), stale...), dynNow...) {
+			query(a, dns.TypeA, 0)
 		}
 
 		// A client allowlisted in the configuration file only floods: it is
